@@ -1,6 +1,7 @@
 import MidnightZK.Model.Common
 import MidnightZK.Model.C01.Schedule
 import MidnightZK.Model.C01.Parse
+import MidnightZK.Model.C01.GraphDump
 /-! Line-protocol handler of property C01. -/
 namespace MidnightZK.C01.Driver
 open MidnightZK MidnightZK.C01 MidnightZK.C01.Parse
@@ -21,6 +22,10 @@ def answer (line : String) : String :=
       else if side = "V" then " ".intercalate ((verifierSchedule sh cfg).map tok)
       else "bad-op"
     | _, _ => "bad-op"
+  | ["graph", gates] =>
+    match C02.Parse.parseExprList gates ";" with
+    | some es => Graph.render (es.map Graph.ofC02)
+    | none => "bad-op"
   | "prooflen" :: rest =>
     match parseShape? rest, parseCfg? rest with
     | some sh, some cfg => toString (proofLen sh cfg)
